@@ -73,6 +73,7 @@ def gen_urdf(rng):
         r = rng.random()
         xyz = rng.uniform(-1, 1, 3) * (rng.random(3) < 0.8)
         rpy = rng.uniform(-PI, PI, 3) * (rng.random(3) < 0.7)
+        rpy = np.where((np.abs(rpy) > 0) & (np.abs(rpy) < 1e-5), 0.0, rpy)      # elementary rotations inside the exponential's cut-off band are not generated
         if rng.random() < 0.2:
             rpy = np.array([gen.pick(rng, [0.0, PI / 2, -PI / 2, PI, 1.570796325]) for _ in range(3)])
         if r < 0.15:
